@@ -130,7 +130,12 @@ class Sh:
                "function f(a:integer, b:string, c:table, d) return table is begin return tab(1, a); end; print f(1, \"x\", tab(1, 1), null).count();",
                "function g return integer is begin return 1; end; function g(a) return undefined is begin return a; end; print g() g(5);", "if true then print 1; elsif false then print 2; else print 3; end if;",
                "while false loop nop; end loop; print \"w\";", "do str(5); trace false; nop; put 1 \" \" 2; print;", "a = 5; if a > 3 then if a > 4 then print \"deep\"; end if; end if;", "return 5 + 1;", "return \"s\";", "return;",
-               "t = tab(2, 1); t.put(0, 5), t.concat(6), print t.count();", "r = tup(1, \"a\"); r.set@1(5); print r@1;", "$x = 5; $x = $x + 1; print $x;", "print 1 /* comment */ + 2; // trailing\nprint 3; # hash\n"]
+               "t = tab(2, 1); t.put(0, 5), t.concat(6), print t.count();", "r = tup(1, \"a\"); r.set@1(5); print r@1;", "$x = 5; $x = $x + 1; print $x;", "print 1 /* comment */ + 2; // trailing\nprint 3; # hash\n",
+               # parameters (untyped and typed) that the body re-assigns, also with a value of another type: the saved header declares what the source declared
+               "function lb(x) return string is begin n = x * 2; x = \"#\" + str(n); return x; end; print lb(21); print lb(1.5);",
+               "function lc(x, y:integer) return integer is begin x = tab(2, x); y = y + x.count(); x = y; return x; end; print lc(\"s\", 1) lc(2, 2);",
+               "function ld(x:undefined) return undefined is begin if x == 1 then x = \"one\"; end if; return x; end; print ld(1); print ld(2); print ld(\"z\");",
+               "function le(p) return boolean is begin q = p; p = isnull(q); return p; end; function lf(p) return integer is begin p = int(p) + 1; return p; end; print le(null) le(3); print lf(\"41\") lf(1.0);"]
         # every statement form as the head of a `,` chain (unparse must emit what follows), at top level, in a loop body and in a function
         heads = ["cnt:integer", "nm:string", "tb:table", "a = 1", "let q = 2", "nop", "trace false", "do str(1)", 'put "p"', "t = tab(1, 1)", "t.concat(2)", 'print "h"']
         tails = ['cnt = 40 + 2, print cnt', 'nm = "v", print nm', "a = 7, print a"]
